@@ -6,7 +6,7 @@
      utils.py:133       split_commas_maybe                          -> SplitCommasMaybe
      filter.py:707-730  Filter.re_valid_option_name, parse_options  -> OptionLikeD, ParseOptionsD, ParseOneOpt
      filter.py:733-761  Filter.parse_topics                         -> ParseTopics
-     filter.py:1019     Filter.normalize_config, filter.py:990 init -> ParseItem("Filter"), CfgInit
+     filter.py:1026     Filter.normalize_config, filter.py:997 init -> ParseItem("Filter"), CfgInit
      filters/video_in.py:682, video_out.py:349, image_in.py:218, image_out.py:236 (one shape) -> ParseEntry, Defaults
      filters/util.py:95 (xforms), recorder.py:68 (outputs)          -> ParseItem("Util"), ParseItem("Recorder")
      filters/webvis.py:100, rest.py:251, mqtt_out.py:202            -> ParseWebvis, ParseRestSource/NormRest,
@@ -308,7 +308,7 @@ ParseItem(cls, s) ==
     [] cls = "Util"     -> LET pt == ParseTopics(s, 0, "false", Main)                       \* util.py:116
                            IN  DictItem(pt.text, IF pt.has THEN Join(pt.tops, ";") ELSE <<>>, {})
     [] cls = "Recorder" -> LET po == ParseOptions(s) IN DictItem(po.text, <<>>, po.opts)     \* recorder.py:81
-    [] cls = "Filter"   -> StrItem(s)                                                       \* filter.py:1023: strings stay
+    [] cls = "Filter"   -> StrItem(s)                                                       \* filter.py:1030: strings stay
 (* defaults and per-class clean-up applied to every structured item *)
 VideoOutKnown == {"bgr", "fps", "segtime", "params"}
 MoveToParams(os) == {IF o.k[1] \in VideoOutKnown THEN o ELSE [o EXCEPT !.k = <<"params">> \o o.k] : o \in os}
@@ -407,7 +407,7 @@ Expected(c) == LET e == Entries(c) IN ListVal([i \in 1..Len(e) |-> Defaults(c.c,
 (* ---- the laws of C11 on the reference ---- *)
 CfgEq(c)   == \A f \in Forms(c) : NormField(c.c, f) = Expected(c)               \* text == list == structured
 CfgIdem(c) == \A f \in Forms(c) : LET n == NormField(c.c, f) IN NormField(c.c, n) = n
-CfgInit(c) == c.c = "Filter" =>                                                 \* filter.py:990 on the normalised strings
+CfgInit(c) == c.c = "Filter" =>                                                 \* filter.py:997 on the normalised strings
   LET n == NormField("Filter", FormText(c)).items e == Entries(c)
   IN  \A i \in 1..Len(e) : ParseTopics(n[i].s, 0, "true", Main) =
         [text |-> e[i].addr, has |-> e[i].maps # <<>>, maps |-> MapPairs(e[i]), tops |-> <<>>, err |-> "ok"]
